@@ -152,8 +152,8 @@ def ex_delay():
                          "effect/delay.rs::Delay::new: default raw value of `feedback` (decibels)"))
     m = anchor(t, r"mix: Parameter::new\(builder\.mix, Mix\(([-0-9._]+)\)\),", "delay Parameter::new default of mix")
     out.append(def_float("delayDefaultMix", m.group(1), "effect/delay.rs::Delay::new: default raw value of `mix`"))
-    ms = anchors(t, r"let delay_time_frames = \(self\.delay_time\.as_secs_f64\(\) \* sample_rate as f64\) as usize;",
-                 "delay length formula")
+    ms = anchors(t, r"let delay_time_frames =\s*\(\(self\.delay_time\.as_secs_f64\(\) \* sample_rate as f64\) as usize\)\.max\(1\);",
+                 "delay length formula (at least one frame)")
     if len(ms) != 2:
         raise Missing(f"delay length formula: expected in init and on_change_sample_rate, found {len(ms)}")
     anchor(t, r"for input in input\.chunks_mut\(self\.buffer\.len\(\)\)", "delay sub-chunking by the line length")
